@@ -426,7 +426,7 @@ class _Break(Exception):
     pass
 
 
-ELEMENTWISE_IDENTITY = {"astensor", "tile", "reshape", "tolist", "asarray", "array", "ravel", "broadcast_to", "to_numpy", "float", "transpose", "squeeze", "expand_dims", "copy", "detach", "constant", "convert_to_tensor", "cast", "as_tensor", "tensor"}
+ELEMENTWISE_IDENTITY = {"astensor", "tile", "reshape", "tolist", "asarray", "array", "ravel", "broadcast_to", "to_numpy", "float", "transpose", "squeeze", "expand_dims", "copy", "detach", "constant", "convert_to_tensor", "cast", "as_tensor", "tensor", "deepcopy"}
 OPAQUE_FNS = {"log", "exp", "sqrt", "xlogy", "gammaln", "lgamma", "erf", "erfc", "normal_cdf", "log1p", "expm1", "ndtr", "log_ndtr"}
 MODULE_NAMES = {"tensorlib", "default_backend", "np", "numpy", "math", "jnp", "tb", "torch", "tf", "special", "scipy", "jax", "tfp", "self"}
 
@@ -703,6 +703,10 @@ class Interp:
                 elif isinstance(op, ast.IsNot):
                     ok = not ((left is right) or (left is None and right is None))
                 elif isinstance(op, (ast.In, ast.NotIn)):
+                    if isinstance(right, dict):
+                        right = list(right.keys())
+                    if isinstance(right, set):
+                        right = list(right)
                     if not isinstance(right, (list, tuple)):
                         raise Undecided("membership")
                     ok = (left in right) == isinstance(op, ast.In)
@@ -719,6 +723,8 @@ class Interp:
             for x in e.elts:
                 if isinstance(x, ast.Starred):
                     v = self.eval(x.value)
+                    if isinstance(v, dict):
+                        v = list(v.keys())
                     if not isinstance(v, (list, tuple)):
                         raise Undecided("star of non-list")
                     out += list(v)
